@@ -45,22 +45,50 @@ def runAlone (f : Data → Data) (st : State) (tid : Nat) : Nat → State
   | 0 => st
   | fuel + 1 => if isDone st tid then st else runAlone f (step f st tid) tid fuel
 
-def schedStep (f : Data → Data) (n : Nat) (st : State) (tid : Nat) : State × String :=
-  if tid ≥ n || isDone st tid then (st, s!"{tid}:noop")
-  else if !enabled st tid then (st, s!"{tid}:blocked")
-  else
-    let st' := step f st tid
-    (st', s!"{tid}:{pcName (st'.threads tid).pc}")
+/-- Driver state: the LTS state plus the thread (at most one) that was sent into a contended lock
+call and is parked inside it (`!tid` steps of the harness). -/
+structure DS where
+  st : State
+  committed : Option Nat
 
-def drain (f : Data → Data) (n : Nat) : Nat → State → List String → State × List String × Bool
-  | 0, st, acc => (st, acc.reverse, false)
-  | fuel + 1, st, acc =>
-    if (List.range n).all (isDone st) then (st, acc.reverse, true)
-    else match (List.range n).find? (fun t => !isDone st t && enabled st t) with
-      | none => (st, acc.reverse, false)
+/-- std `RwLock`: a parked writer keeps new readers out. -/
+def writerWaiting (ds : DS) : Bool :=
+  match ds.committed with
+  | some c => (ds.st.threads c).pc == .pLockLast
+  | none => false
+
+def enabledD (ds : DS) (tid : Nat) : Bool :=
+  enabled ds.st tid && !((ds.st.threads tid).pc == .aLockLast && writerWaiting ds)
+
+/-- The parked thread goes on as soon as its lock is free. -/
+def settle (f : Data → Data) (ds : DS) : DS × String :=
+  match ds.committed with
+  | some c =>
+    if enabled ds.st c then
+      let st' := step f ds.st c
+      ({ st := st', committed := none }, s!"+{c}:{pcName (st'.threads c).pc}")
+    else (ds, "")
+  | none => (ds, "")
+
+def schedStep (f : Data → Data) (n : Nat) (ds : DS) (tid : Nat) (attempt : Bool) : DS × String :=
+  if tid ≥ n || isDone ds.st tid then (ds, s!"{tid}:noop")
+  else if ds.committed == some tid then (ds, s!"{tid}:waiting")
+  else if enabledD ds tid then
+    let st' := step f ds.st tid
+    let (ds', suf) := settle f { ds with st := st' }
+    (ds', s!"{tid}:{pcName (st'.threads tid).pc}" ++ suf)
+  else if attempt && ds.committed.isNone then ({ ds with committed := some tid }, s!"{tid}:stuck")
+  else (ds, s!"{tid}:blocked")
+
+def drain (f : Data → Data) (n : Nat) : Nat → DS → List String → DS × List String × Bool
+  | 0, ds, acc => (ds, acc.reverse, false)
+  | fuel + 1, ds, acc =>
+    if (List.range n).all (isDone ds.st) then (ds, acc.reverse, true)
+    else match (List.range n).find? (fun t => !isDone ds.st t && ds.committed != some t && enabledD ds t) with
+      | none => (ds, acc.reverse, false)
       | some tid =>
-        let (st', tok) := schedStep f n st tid
-        drain f n fuel st' (tok :: acc)
+        let (ds', tok) := schedStep f n ds tid false
+        drain f n fuel ds' (tok :: acc)
 
 def insertSorted (s : Svc) : List Svc → List Svc
   | [] => [s]
@@ -73,8 +101,10 @@ def handleLine (payload : String) : String :=
       | "f=n" => some .none | "f=r" => some .relayOnly | "f=i" => some .ipOnly | _ => none
     let pre := (stripPrefix? pre "pre=").bind parseOps
     let th := (stripPrefix? th "T=").bind parseOps
-    let sched : Option (List Nat) := (stripPrefix? sc "S=").bind fun s =>
-      if s == "-" then some [] else (s.splitOn ",").mapM parseNat?
+    let sched : Option (List (Nat × Bool)) := (stripPrefix? sc "S=").bind fun s =>
+      if s == "-" then some [] else (s.splitOn ",").mapM fun t =>
+        if t.startsWith "!" then (parseNat? (t.drop 1).toString).map (·, true)
+        else (parseNat? t).map (·, false)
     match filt, pre, th, sched with
     | some filt, some pre, some th, some sched =>
       let sids := (pre ++ th).filterMap fun | .add s => some s | _ => none
@@ -87,10 +117,11 @@ def handleLine (payload : String) : String :=
       let n := th.length
       let (st, _) := th.foldl (fun (acc : State × Nat) op =>
         (acc.1.setThread acc.2 (Thread.start op), acc.2 + 1)) (st, 0)
-      let (st, toks) := sched.foldl (fun (acc : State × List String) tid =>
-        let (st', tok) := schedStep f n acc.1 tid
-        (st', tok :: acc.2)) (st, [])
-      let (st, dtoks, ok) := drain f n (n * (sids.length + 8) + 1) st []
+      let (ds, toks) := sched.foldl (fun (acc : DS × List String) (x : Nat × Bool) =>
+        let (ds', tok) := schedStep f n acc.1 x.1 x.2
+        (ds', tok :: acc.2)) (({ st := st, committed := none } : DS), [])
+      let (ds, dtoks, ok) := drain f n (n * (sids.length + 8) + 1) ds []
+      let st := ds.st
       let head := ",".intercalate toks.reverse ++ " | " ++ ",".intercalate dtoks ++ " | "
       if !ok then head ++ "deadlock" else
       let sorted := st.services.foldl (fun acc s => insertSorted s acc) []
